@@ -101,6 +101,10 @@ type mjExec struct {
 	Expect   []string // per model op: expected result char T/F/W/- and, after '|', Current() or * (not observed)
 	StepOf   []int    // real op index of each model op
 	Monitors []string
+	// the same run for the model WITH callers (Martian.SemaphoreMJP, driver op C12.mjp):
+	// per op the expected result (T/F/-, for Q: the parked callers, sorted, after '|' and Current())
+	POps, PWant []string
+	PStep       []int
 }
 
 type mjRes struct {
@@ -123,6 +127,11 @@ func execMJ(limit, nmd int, ops []mjOp) mjExec {
 	step := 0
 	fail := func(name, f string, a ...interface{}) {
 		ex.Monitors = append(ex.Monitors, fmt.Sprintf("%s@%d: %s", name, step, fmt.Sprintf(f, a...)))
+	}
+	pemit := func(op, want string) {
+		ex.POps = append(ex.POps, op)
+		ex.PWant = append(ex.PWant, want)
+		ex.PStep = append(ex.PStep, step)
 	}
 	emit := func(op, want string) {
 		ex.ModelOps = append(ex.ModelOps, op)
@@ -197,6 +206,7 @@ func execMJ(limit, nmd int, ops []mjOp) mjExec {
 			if op.NB {
 				b := sem.Acquire(mds[op.Md], true)
 				emit(fmt.Sprintf("t%d:%s:1", op.Md, mjStChar(st[op.Md])), tf(b))
+				pemit(fmt.Sprintf("e%d:%d:%s:1", 100000+i, op.Md, mjStChar(st[op.Md])), tf(b))
 			} else {
 				newW = nextW
 				nextW++
@@ -208,6 +218,7 @@ func execMJ(limit, nmd int, ops []mjOp) mjExec {
 		case "r":
 			sem.Release(mds[op.Md])
 			emit(fmt.Sprintf("r%d", op.Md), "-")
+			pemit(fmt.Sprintf("r%d", op.Md), "-")
 		case "f":
 			sem.FindDone()
 			var fin []string
@@ -217,18 +228,22 @@ func execMJ(limit, nmd int, ops []mjOp) mjExec {
 				}
 			}
 			emit("f"+strings.Join(fin, "."), "-")
+			pemit("f"+strings.Join(fin, "."), "-")
 		case "c":
 			sem.Clear()
 			cleared = true
 			emit("c", "-")
+			pemit("c", "-")
 		}
 		got := settle(launched)
 		if newW >= 0 {
 			if b, ok := got[newW]; ok {
 				emit(fmt.Sprintf("t%d:%s:0", op.Md, mjStChar(st[op.Md])), tf(b))
+				pemit(fmt.Sprintf("e%d:%d:%s:0", newW, op.Md, mjStChar(st[op.Md])), tf(b))
 				delete(got, newW)
 			} else {
 				emit(fmt.Sprintf("t%d:%s:0", op.Md, mjStChar(st[op.Md])), "W")
+				pemit(fmt.Sprintf("e%d:%d:%s:0", newW, op.Md, mjStChar(st[op.Md])), "-")
 				blocked[newW] = op.Md
 			}
 		}
@@ -246,6 +261,8 @@ func execMJ(limit, nmd int, ops []mjOp) mjExec {
 			}
 			delete(blocked, w)
 			emit(fmt.Sprintf("t%d:%s:0", md, mjStChar(st[md])), tf(got[w]))
+			// a caller that was parked has returned: it must have been signalled
+			pemit(fmt.Sprintf("u%d:%s", w, mjStChar(st[md])), tf(got[w]))
 		}
 		// callers still blocked: the model must agree that they keep waiting
 		ws = ws[:0]
@@ -269,6 +286,18 @@ func execMJ(limit, nmd int, ops []mjOp) mjExec {
 		}
 		if cleared && len(ws) > 0 {
 			fail("lost-wakeup", "%d callers still parked after Clear()", len(ws))
+		}
+		// quiescence in the model with callers: whoever else was signalled runs and parks
+		// again; then exactly the callers still blocked here are parked there
+		{
+			var sts, pk []string
+			for m := range mds {
+				sts = append(sts, mjStChar(st[m]))
+			}
+			for _, w := range ws {
+				pk = append(pk, strconv.Itoa(w))
+			}
+			pemit("Q"+strings.Join(sts, ""), fmt.Sprintf("-|%s|%d", strings.Join(pk, "."), cur))
 		}
 		if len(ex.Expect) > 0 && ex.StepOf[len(ex.StepOf)-1] == step {
 			e := ex.Expect[len(ex.Expect)-1]
@@ -372,6 +401,49 @@ type mjCase struct {
 	Ops        []mjOp
 }
 
+// judgeMJP: the run against the model with callers.
+func judgeMJP(ex mjExec, reply string) (string, string) {
+	if len(ex.POps) == 0 || len(ex.Monitors) > 0 {
+		return "", ""
+	}
+	if reply == "bad-op" || reply == "" {
+		return "correspondence", "driver rejected the caller-level encoding: " + strings.Join(ex.POps, ",")
+	}
+	parts := strings.Split(reply, ";")
+	if len(parts) != len(ex.POps) {
+		return "correspondence", fmt.Sprintf("caller-level model returned %d entries for %d ops", len(parts), len(ex.POps))
+	}
+	for i, p := range parts {
+		f := strings.Split(p, ":") // |running| : parked : woken : res
+		if len(f) != 4 {
+			return "correspondence", "unparsable caller-level model reply " + p
+		}
+		want := strings.Split(ex.PWant[i], "|")
+		if f[3] != want[0] {
+			what := fmt.Sprintf("real %s, model %s", want[0], f[3])
+			switch {
+			case f[3] == "!":
+				what = "the caller returned from Acquire although, by the model, neither it nor anybody else had been signalled"
+			case strings.HasPrefix(ex.POps[i], "Q"):
+				what = "callers " + f[3] + " return in the model once every signalled caller has run; here they are still parked in cond.Wait()"
+			}
+			return "correspondence", fmt.Sprintf("callers (C12.mjp) op %d (%s, real op %d): %s (model parked=%s woken=%s)", i, ex.POps[i], ex.PStep[i], what, f[1], f[2])
+		}
+		if len(want) == 3 {
+			pk := strings.Split(f[1], ".")
+			if f[1] == "" {
+				pk = nil
+			}
+			sort.Slice(pk, func(a, b int) bool { x, _ := strconv.Atoi(pk[a]); y, _ := strconv.Atoi(pk[b]); return x < y })
+			if strings.Join(pk, ".") != want[1] || f[0] != want[2] {
+				return "correspondence", fmt.Sprintf("callers (C12.mjp) after real op %d at quiescence: callers parked in cond.Wait() [%s], Current()=%s; model parked [%s], |running|=%s",
+					ex.PStep[i], want[1], want[2], strings.Join(pk, "."), f[0])
+			}
+		}
+	}
+	return "", ""
+}
+
 func checkMJ(c *Ctx, mc mjCase) (string, string, mjExec, string) {
 	ex := execMJ(mc.Limit, mc.Nmd, mc.Ops)
 	reply := ""
@@ -379,6 +451,12 @@ func checkMJ(c *Ctx, mc mjCase) (string, string, mjExec, string) {
 		reply = c.Drv.Ask("C12.mj", strconv.Itoa(mc.Limit), strings.Join(ex.ModelOps, ","))
 	}
 	k, w := judgeMJ(ex, reply)
+	if k == "" && len(ex.POps) > 0 && mjParkDetection {
+		preply := c.Drv.Ask("C12.mjp", strconv.Itoa(mc.Limit), strings.Join(ex.POps, ","))
+		if k, w = judgeMJP(ex, preply); k != "" {
+			reply = preply
+		}
+	}
 	return k, w, ex, reply
 }
 
@@ -443,6 +521,7 @@ func runC12MaxJobs(c *Ctx) {
 			r.hist("mj_sequences_with_blocked_callers")
 		}
 		r.Histogram["mj_model_ops"] += len(ex.ModelOps)
+		r.Histogram["mj_caller_level_model_ops"] += len(ex.POps)
 		r.Histogram["mj_grants"] += grants
 		if i%499 == 0 {
 			r.sample(map[string]interface{}{"maxjobs_limit": mc.Limit, "ops": mjOpsString(mc.Ops), "model_ops": strings.Join(ex.ModelOps, ","), "real": strings.Join(ex.Expect, ",")})
@@ -486,9 +565,10 @@ func runC12MaxJobs(c *Ctx) {
 		v := Violation{Kind: kind, Key: "C12:maxjobs:" + name, What: "MaxJobsSemaphore: " + w3,
 			Input: map[string]interface{}{"limit": cur.Limit, "jobs": cur.Nmd, "ops": mjOpsString(cur.Ops),
 				"encoding": "s<j>=<state> set job j's metadata state, acq<j> blocking Acquire in its own goroutine, try<j> non-blocking Acquire, rel<j> Release, finddone, clear"},
-			Impl: map[string]interface{}{"model_ops": ex3.ModelOps, "real_result|Current": ex3.Expect}, Model: rep3}
+			Impl: map[string]interface{}{"model_ops": ex3.ModelOps, "real_result|Current": ex3.Expect,
+				"caller_level_ops": ex3.POps, "caller_level_real_result|parked callers|Current": ex3.PWant}, Model: rep3}
 		if kind == "correspondence" {
-			v.Broken = "correspondence C12.mj (Martian.Semaphore.MJ.step vs MaxJobsSemaphore)"
+			v.Broken = "correspondence C12.mj / C12.mjp (Martian.Semaphore.MJ.step, MJP.step vs MaxJobsSemaphore)"
 		}
 		r.violate(v)
 	}
